@@ -83,6 +83,23 @@ theorem nondecreasing_never_stale (c : Cfg) (s : St) (r : Res)
         simp [hc, this]
   simp [step, hs, stepCore]
 
+/-- The model drops a result only when the specification allows it (`mayDrop`): it is strictly older
+    than the latest accepted one. -/
+theorem dropped_only_if_older (c : Cfg) (s : St) (r : Res) (h : (step c s r).2.2 = false) :
+    mayDrop s.lastExec r.execStart = true := by
+  unfold step at h
+  cases hs : stale s r
+  · simp [hs] at h
+  · unfold stale at hs
+    cases hl : s.lastExec with
+    | none => simp [hl] at hs
+    | some cur =>
+      simp only [hl] at hs
+      by_cases hc : cur > r.now
+      · simp [hc] at hs
+      · simp [hc] at hs
+        simp [mayDrop, hs]
+
 /-- **host_projection.**  For hosts the state type, attempt and event depend on the results only
     through Up/Down: two start states and two results that agree after projection step to states
     that agree after projection, with the same event. -/
